@@ -11,7 +11,7 @@ from __future__ import annotations
 
 import asyncio
 import logging
-from typing import Any, Dict, Optional, Tuple
+from typing import Any, Dict, Optional, Set, Tuple
 
 # PERFORMANCE: Use fast JSON implementation (orjson if available, stdlib json fallback)
 from chuk_mcp.protocol import fast_json as json
@@ -60,6 +60,9 @@ class SSETransport(Transport):
 
         # Message handling - support both immediate and async responses
         self._pending_requests: Dict[str, asyncio.Future] = {}
+        # Requests this transport has answered itself with a synthesized error
+        # (timeout, failed POST): a late answer must not become a second one
+        self._abandoned_requests: Set[str] = set()
         self._message_lock = asyncio.Lock()
 
         # Memory streams for chuk_mcp message API
@@ -161,6 +164,8 @@ class SSETransport(Transport):
                 if not future.done():
                     future.cancel()
             self._pending_requests.clear()
+        if hasattr(self, "_abandoned_requests"):
+            self._abandoned_requests.clear()
 
         # Cancel tasks
         if hasattr(self, "_sse_task") and self._sse_task and not self._sse_task.done():
@@ -375,6 +380,15 @@ class SSETransport(Transport):
                             )
                         return  # Don't route to incoming stream
 
+                # The answer to a request that already got its (synthesized)
+                # terminal message: drop it, a request is answered exactly once
+                if message_id in self._abandoned_requests and (
+                    "result" in message_data or "error" in message_data
+                ):
+                    self._abandoned_requests.discard(message_id)
+                    logger.debug(f"Dropped late response to request {message_id}")
+                    return
+
             # If not a response to pending request, route to incoming stream
             await self._route_incoming_message(message_data)
 
@@ -444,6 +458,7 @@ class SSETransport(Transport):
                 future: asyncio.Future[Dict[str, Any]] = asyncio.Future()
                 async with self._message_lock:
                     self._pending_requests[message_id] = future
+                    self._abandoned_requests.discard(message_id)  # id in use again
                     logger.debug(f"Added pending request: {message_id}")
 
                 try:
@@ -492,6 +507,7 @@ class SSETransport(Transport):
                                 "id": request_id,
                                 "error": {"code": -32000, "message": "Request timeout"},
                             }
+                            self._abandoned_requests.add(message_id)
                             await self._route_incoming_message(error_response)
                         except asyncio.CancelledError:
                             # Only _cleanup cancels a future that is being awaited:
@@ -524,6 +540,7 @@ class SSETransport(Transport):
                                     "message": f"HTTP {response.status_code}: {response.text[:100]}",
                                 },
                             }
+                            self._abandoned_requests.add(message_id)
                             await self._route_incoming_message(error_response)
 
                 except Exception as e:
@@ -534,6 +551,7 @@ class SSETransport(Transport):
                         "id": request_id,
                         "error": {"code": -32603, "message": str(e)},
                     }
+                    self._abandoned_requests.add(message_id)
                     await self._route_incoming_message(error_response)
                 finally:
                     # Clean up pending request
